@@ -1344,7 +1344,7 @@ mismatch between values and axes""".format(inferred, self.values.shape)
         meta = {}
         for m in self._metadata():
             try:
-                val = getattr(self, m)
+                val = self.attrs[m] # not getattr: a key naming a class member, a dimension or starting with '_' is still metadata
                 if jsonimported: 
                     _ = json.dumps(val)
                 meta[m] = val
